@@ -669,7 +669,7 @@ def decide(pid, cfg, tier, seed, units, work, ev):
         mpath = os.path.join(sub, 'mirror.rs')
         mods = [m for m in cfg['modules'] if (m != 'history' or 'history' in fs)
                 and (not (m.startswith('tmpl_') and 'autocomplete' in m) or 'autocomplete' in fs)
-                and (m != 'tmpl_group_help' or 'help' in fs)]
+                and (m not in ('tmpl_group_help', 'tmpl_command_help') or 'help' in fs)]
         # the prelude does not depend on the feature set (only three spec constants do): verified with the default set
         pre = ['verif_specs'] if fs == mirror.ALL_FEATURES else []
         ext = set()
